@@ -7,7 +7,7 @@ use serde_json::{json, Value};
 use std::io::{BufRead, Write};
 use verif_harness::util::{catch, quiet_panics, Rng};
 
-const TABLES: &[[&str; 4]] = &[["a", "ß", "ℝ", "💣"], ["Z", "é", "中", "𝒳"], [" ", "\u{80}", "\u{800}", "\u{10000}"], ["\t", "\u{7ff}", "\u{ffff}", "\u{10ffff}"]];
+const TABLES: &[[&str; 4]] = &[["a", "ß", "ℝ", "💣"], ["Z", "é", "中", "𝒳"], [" ", "\u{80}", "\u{800}", "\u{10000}"], ["\t", "\u{7ff}", "\u{ffff}", "\u{10ffff}"], ["1", "\u{a0}", "\u{feff}", "\u{1f600}"]];
 
 fn render(units: &Value, tab: &[&str; 4]) -> String {
     let mut s = String::new();
